@@ -12,7 +12,7 @@ EXPLANATION = ("K1 pairing: every removal of a routing entry in the driver loop 
 TRUSTED = ['HashMap/HashSet remove semantics', 'dropping a oneshot::Sender fails its receiver']
 UNDECIDED = ['quiescence over arbitrary histories (reachability of the running system)', 'operation futures dropped mid-flight (no Drop-based release exists)']
 ASSUMPTIONS = []
-SHARED = [('C12', ('O1.scrub', 'O2.scrub', 'O3.'), 'K7.timeout-releases')]      # a timed-out operation is one of the ways an operation ends: its expiry must scrub its ID and routing entry, and the scrub arm must release all three
+SHARED = [('C12', ('O1.scrub', 'O2.scrub', 'O3.'), 'K7.timeout-releases'), ('C16', ('A2.splices-new-stream',), 'K8.scrub-names-the-running-search')]      # a timed-out operation is one of the ways an operation ends: its expiry must scrub its ID and routing entry, and the scrub arm must release all three
 
 def effective_ctx(L, n):
     """Control context of a removal; a removal that is the scrutinee of `if let Some(_) = map.remove(k)` only takes effect in the then-branch."""
